@@ -96,6 +96,12 @@ func (e *env) runBlock(mode string, ops ...*op) {
 		if o.kind == "tick" && o.epoch > e.epoch {
 			e.epoch = o.epoch
 		}
+		// lock accounts are destinations and sources of later operations in every mode (seeded change C02-5:
+		// a public transfer into a live lock account)
+		if o.kind == "lock" && len(o.to) == 20 {
+			h, _ := util.Uint160DecodeBytesBE(o.to)
+			e.everLock[h] = true
+		}
 	}
 	for _, o := range ops {
 		nontrivial := !o.r.Diff.Empty() || o.r.Faulted() || returnedFalse(o)
@@ -401,6 +407,9 @@ func (e *env) monitorC09(ops []*op, single bool) {
 	if (o.r.Faulted() || o.r.Rejected != "") && !o.r.Diff.Empty() {
 		b.Violation("failed invocation changed storage", e.detail(ops, nil))
 	}
+	if returnedFalse(o) && !o.r.Diff.Empty() {
+		b.Violation("transfer reported false but changed state", e.detail(ops, nil))
+	}
 	if o.r.Halted() {
 		plain, x, _ := e.balanceTransfers(o.r.Events)
 		switch o.kind {
@@ -420,10 +429,59 @@ func (e *env) monitorC09(ops []*op, single bool) {
 				}
 				wantDelta[h].Add(wantDelta[h], v)
 			}
+			// a lock whose parent is a lock released by the same tick: the amounts then depend on the order in
+			// which the tick visits the two (either order satisfies the statement), so only the shape of the
+			// releases and the final state are judged for such a tick
+			nested := false
+			for _, l := range exp {
+				if exp[l.parent] != nil {
+					nested = true
+				}
+			}
 			for a, l := range exp {
+				// a parent that is a live lock itself and stays one gets the funds on top of its own
+				if pl := e.locks[l.parent]; pl != nil && exp[l.parent] == nil && a != l.parent {
+					pl.remaining = new(big.Int).Add(pl.remaining, l.remaining)
+					b.Hit("released-into-a-live-lock")
+				}
 				want = append(want, transferEvent{from: a.BytesBE(), to: l.parent.BytesBE(), amount: l.remaining})
 				add(a, new(big.Int).Neg(l.remaining))
 				add(l.parent, l.remaining)
+			}
+			if nested {
+				b.Hit("nested-locks-released-by-one-tick")
+				seen := map[util.Uint160]int{}
+				for _, t := range plain {
+					h, _ := util.Uint160DecodeBytesBE(t.from)
+					l := exp[h]
+					if len(t.from) != 20 || l == nil || !bytes.Equal(t.to, l.parent.BytesBE()) {
+						b.Violation(fmt.Sprintf("tick %d: a transfer that is not the release of an expired lock to its parent", o.epoch), e.detail(ops, map[string]any{"got": renderTransfers(plain)}))
+						continue
+					}
+					seen[h]++
+					isParent := false
+					for _, l2 := range exp {
+						if l2.parent == h {
+							isParent = true
+						}
+					}
+					if !isParent && (t.amount == nil || t.amount.Cmp(l.remaining) != 0) {
+						b.Violation(fmt.Sprintf("tick %d: lock %s released %v, it held %s", o.epoch, h.StringLE(), t.amount, l.remaining), e.detail(ops, nil))
+					}
+				}
+				for a := range exp {
+					if seen[a] != 1 {
+						b.Violation(fmt.Sprintf("tick %d: expired lock %s was released %d times", o.epoch, a.StringLE(), seen[a]), e.detail(ops, map[string]any{"got": renderTransfers(plain)}))
+					}
+				}
+				if _, ds := e.balanceDeltas(o.r.Diff); ds.Sign() != 0 {
+					b.Violation("epoch tick changed totalSupply", e.detail(ops, nil))
+				}
+				for a := range exp {
+					delete(e.locks, a)
+					e.released[a] = true
+				}
+				break
 			}
 			if !multisetEqual(plain, want) {
 				b.Violation(fmt.Sprintf("tick %d: unlock transfers differ from the expired locks (expected %d, got %d)", o.epoch, len(want), len(plain)), e.detail(ops, map[string]any{"expected": renderTransfers(want), "got": renderTransfers(plain)}))
